@@ -6,6 +6,8 @@ from .constants import POS, RESULT, STATUS, TEXT
 class Expression:
     defines_local = False
     has_params = False
+    is_class = False
+    is_field = False
 
     is_call = False
     is_commented = True
@@ -93,6 +95,13 @@ class Expression:
         visit(self, check)
         return bool(found)
 
+    # The names of local variables (let, class fields, parameters) that the node
+    # uses without a Ref: filled in by the translator's scope analysis.
+    local_names = ()
+
+    def mentioned_names(self):
+        return ()
+
     def _skips_ignored(self):
         # Skipping the ignored tokens after a literal is a rule call too.
         return getattr(self, 'skip_ignored', False)
@@ -123,7 +132,16 @@ class SymbolCounter:
         self.freevars = set()
         self._counts = defaultdict(int)
 
+        # The fields of the enclosing class that have been parsed already: they
+        # are local variables for inline Python and repetition counts (but a
+        # reference never means a field).
+        self._fields = defaultdict(int)
+        self._classes = []
+
     def previsit(self, node):
+        if node.is_class:
+            self._classes.append([])
+
         if node.defines_local:
             self._counts[node.name] += 1
 
@@ -134,6 +152,12 @@ class SymbolCounter:
         if node.is_reference and node.is_local and not self.is_bound(node.name):
             self.freevars.add(node.name)
 
+        # Names of an enclosing scope that the node mentions in inline Python
+        # or as a repetition count.
+        for name in node.local_names:
+            if not self.is_variable(name):
+                self.freevars.add(name)
+
     def postvisit(self, node):
         if node.defines_local:
             self._counts[node.name] -= 1
@@ -142,5 +166,16 @@ class SymbolCounter:
             for param in node.params:
                 self._counts[param] -= 1
 
+        if node.is_class:
+            for name in self._classes.pop():
+                self._fields[name] -= 1
+
+        elif node.is_field and node.name and self._classes:
+            self._classes[-1].append(node.name)
+            self._fields[node.name] += 1
+
     def is_bound(self, name):
         return self._counts[name] > 0
+
+    def is_variable(self, name):
+        return self.is_bound(name) or self._fields[name] > 0
